@@ -28,9 +28,11 @@ class C19(Prop):
     search_budget = {'quick': 20000, 'thorough': 200000}
     rule = ('pure case = (maxBytes, maxN, job-group spec sizes, job spec sizes); specs are real JSON dicts whose orjson size is the '
             'wanted size; sizes are random and boundary-directed (running sum = maxBytes-1 / maxBytes, bunch length = maxN); '
-            'non-trivial = accepted input producing >= 2 bunches. submits case = a REAL aioclient.Batch whose client is a recorder: '
+            'non-trivial = accepted input producing >= 2 bunches; a second stream uses realistic job-group specs (job_group_id, in_update_parent_id / '
+            'absolute_parent_id) of nested groups whose parent ids are NOT in sorted order. submits case = a REAL aioclient.Batch whose client is a recorder: '
             '1-3 rounds, each creating job groups and jobs (interleaved, padded attributes) through create_job_group / create_job and then '
-            'calling submit(max_bunch_bytesize, max_bunch_size); observed per submit: route (create-fast / update-fast / create+bunches+commit), '
+            'calling submit(max_bunch_bytesize, max_bunch_size) — job groups are also NESTED (sub-group of an earlier group of the same round or of '
+            'a submitted round, per-sample group/sub-group loops) and jobs created inside groups; observed per submit: route (create-fast / update-fast / create+bunches+commit), '
             'announced n_job_groups / n_jobs, the uids and byte totals of every posted bunch; oracle: the posted job groups / jobs are exactly '
             'those created since the previous successful submit, in order, announced counts equal, limits kept, nothing sent when nothing '
             'is pending. distinct by full case')
@@ -53,6 +55,43 @@ class C19(Prop):
         return base
 
     MIN = 16  # smallest spec size used (index up to 4 digits)
+
+    # a job-group spec as `_create_job_group` builds it (job_group_id, in_update_parent_id / absolute_parent_id) whose serialized size is n
+    @staticmethod
+    def group_spec(idx, n, gid, parent):
+        base = {'job_group_id': gid, 'i': idx, 'p': ''}
+        if parent >= 0:
+            base['in_update_parent_id'] = parent          # parent created in this update (0 = the root of a new batch)
+        else:
+            base['absolute_parent_id'] = -parent - 1      # parent already submitted
+        k = len(json.dumps(base, separators=(',', ':')).encode())
+        assert n >= k, (n, k)
+        base['p'] = 'x' * (n - k)
+        return base
+
+    MIN_G = 72  # smallest realistic job-group spec (ids up to 3 digits)
+
+    def _nested_cases(self, rng, n):
+        """pure cases whose job groups are NESTED the way a per-sample loop creates them (group, sub-group, group, sub-group, …):
+        the in-update parent ids are not in sorted order"""
+        for _ in range(n):
+            max_n = rng.choice([1, 2, 3, 4, 5, 8, 64])
+            max_bytes = rng.choice([80, 100, 150, 230, 400, 1000, 10 ** 6])
+            ng = rng.choice([1, 2, 3, 4, 6, 9, 14])
+            shape = rng.random()
+            parents = []
+            for g in range(1, ng + 1):
+                if shape < 0.5:
+                    parents.append(0 if g % 2 == 1 else g - 1)              # sample group, its sub-group, next sample group, …
+                elif shape < 0.8:
+                    parents.append(rng.choice([0, 0] + list(range(1, g))))  # random forest, parents always earlier
+                elif shape < 0.9:
+                    parents.append(-rng.randint(1, 5))                      # children of already submitted groups
+                else:
+                    parents.append(0)
+            gsizes = [max(self.MIN_G, min(max_bytes - 1, rng.choice([self.MIN_G, self.MIN_G + 3, 90, 120]))) for _ in range(ng)]
+            jsizes = [rng.randint(self.MIN, max(self.MIN, min(max_bytes - 1, self.MIN + 40))) for _ in range(rng.choice([0, 1, 3, 7]))]
+            yield {'maxBytes': max_bytes, 'maxN': max_n, 'groups': gsizes, 'jobs': jsizes, 'gparents': parents}
 
     def cases(self, rng, n, tier):
         for _ in range(n):
@@ -82,15 +121,19 @@ class C19(Prop):
                 max_n = 0 if rng.random() < 0.5 else max_n
                 max_bytes = 0 if max_n else max_bytes
             yield {'maxBytes': max_bytes, 'maxN': max_n, 'groups': sizes[:ng], 'jobs': sizes[ng:]}
+        yield from self._nested_cases(rng, max(300, n // 6))
         for _ in range(max(200, n // 8)):
             yield self._submits_case(rng)
 
     # ---- caller level: a real Batch object submitted several times ---------------------------------------------------
     def _submits_case(self, rng):
         rounds = []
+        n_groups = 0
+        last_was_root_group = False
         for _r in range(rng.choice([1, 2, 2, 3, 3])):
             ops = []
             shape = rng.random()
+            nest = rng.random()
             for _i in range(rng.choice([0, 1, 2, 3, 4, 6, 9])):
                 if shape < 0.2:
                     kind = 'j'
@@ -98,7 +141,21 @@ class C19(Prop):
                     kind = 'g'
                 else:
                     kind = rng.choice('gjj')
-                ops.append([kind, rng.choice([0, 0, 0, 1, 7, 40, 200])])
+                op = [kind, rng.choice([0, 0, 0, 1, 7, 40, 200])]
+                # parent job group: None = the root; else the index (over the whole case) of an earlier job group — a group of this
+                # round (in_update_parent_id) or of an earlier, already submitted round (absolute_parent_id)
+                if n_groups and nest < 0.75:
+                    if kind == 'g':
+                        # per-sample loop: group, its sub-group, group, its sub-group, … / or a random earlier group
+                        ref = (n_groups - 1 if last_was_root_group else None) if nest < 0.4 else rng.choice([None] + list(range(n_groups)))
+                    else:
+                        ref = rng.choice([None, n_groups - 1, rng.randrange(n_groups)])
+                    if ref is not None:
+                        op.append(ref)
+                if kind == 'g':
+                    last_was_root_group = len(op) == 2
+                    n_groups += 1
+                ops.append(op)
             max_bytes = rng.choice([10 ** 6, 10 ** 6, 2000, 900, 520, 330])
             if rng.random() < 0.04:
                 max_bytes = 250                    # below the size of a job spec: the assertion of _create_bunches fires
@@ -166,23 +223,26 @@ class C19(Prop):
         uid = 0
         sizes = {}
         out = []
+        group_objs = []
 
         async def go():
             nonlocal uid
             for rnd in c['rounds']:
                 created = {'g': [], 'j': []}
-                for kind, pad in rnd['ops']:
+                for op in rnd['ops']:
+                    kind, pad = op[0], op[1]
+                    owner = group_objs[op[2]] if len(op) > 2 and op[2] is not None else batch
                     uid += 1
                     attrs = {'uid': str(uid)}
                     if pad:
                         attrs['p'] = 'x' * pad
                     if kind == 'g':
                         n0 = len(batch._job_group_specs)
-                        batch.create_job_group(attributes=attrs)
+                        group_objs.append(owner.create_job_group(attributes=attrs))
                         sizes[uid] = self._nbytes(batch._job_group_specs[n0])
                     else:
                         n0 = len(batch._job_specs)
-                        batch.create_job('ubuntu:22.04', ['true'], attributes=attrs)
+                        owner.create_job('ubuntu:22.04', ['true'], attributes=attrs)
                         sizes[uid] = self._nbytes(batch._job_specs[n0])
                     created[kind].append(uid)
                 n_posts = len(rec.posts)
@@ -251,9 +311,9 @@ class C19(Prop):
             uid = 0
             for rnd in c['rounds']:
                 toks = []
-                for kind, _pad in rnd['ops']:
+                for op in rnd['ops']:
                     uid += 1
-                    toks.append(f'{kind}{sizes[uid]}')
+                    toks.append(f'{op[0]}{sizes[uid]}')
                 lines.append(' '.join(['round', str(rnd['maxBytes']), str(rnd['maxN'])] + toks))
             return lines
         return [' '.join(map(str, [c['maxBytes'], c['maxN'], len(c['groups'])] + c['groups'] + c['jobs']))]
@@ -266,9 +326,9 @@ class C19(Prop):
         uid = 0
         created_before = False
         for k, (rnd, line) in enumerate(zip(c['rounds'], out[1:]), start=1):
-            for kind, _pad in rnd['ops']:
+            for op in rnd['ops']:
                 uid += 1
-                pend[kind].append(uid)
+                pend[op[0]].append(uid)
             too_big = [u for u in pend['g'] + pend['j'] if sizes[u] >= rnd['maxBytes']]
             what = f'submit #{k} (max_bunch_bytesize={rnd["maxBytes"]}, max_bunch_size={rnd["maxN"]})'
             if line == 'raised':
@@ -315,9 +375,12 @@ class C19(Prop):
         return None
 
     def _run(self, c):
-        specs = [self.spec(i, s) for i, s in enumerate(c['groups'] + c['jobs'])]
-        g = specs[:len(c['groups'])]
-        j = specs[len(c['groups']):]
+        ng = len(c['groups'])
+        if 'gparents' in c:
+            g = [self.group_spec(i, s, i + 1, c['gparents'][i]) for i, s in enumerate(c['groups'])]
+        else:
+            g = [self.spec(i, s) for i, s in enumerate(c['groups'])]
+        j = [self.spec(ng + i, s) for i, s in enumerate(c['jobs'])]
         try:
             bs = self.fn(None, g, j, c['maxBytes'], c['maxN'])
         except AssertionError:
@@ -374,8 +437,10 @@ class C19(Prop):
             for ln in lines:
                 tags.append('submit:' + ('raised' if ln == 'raised' else 'quiet' if ln == 'quiet' else 'fast' if ' F[' in ln else
                                          'open' if ln.endswith(' open') else 'bunches'))
-            if any('g' == k for r in c['rounds'][:-1] for k, _ in r['ops']) and len(c['rounds']) > 1:
+            if any('g' == op[0] for r in c['rounds'][:-1] for op in r['ops']) and len(c['rounds']) > 1:
                 tags.append('groups-before-a-later-submit')
+            if any(op[0] == 'g' and len(op) > 2 for r in c['rounds'] for op in r['ops']):
+                tags.append('nested-job-groups')
             return (json.dumps(c, sort_keys=True) if len(lines) > 1 or any(' G[' in ln or ' J[' in ln for ln in lines) else None, tags)
         tags = ['err' if out[0] == 'err' else 'empty' if out[0] == 'empty' else f"bunches={min(out[0].count('|') + 1, 5)}"]
         nontrivial = out[0] not in ('err', 'empty') and '|' in out[0]
@@ -386,20 +451,41 @@ class C19(Prop):
 
     def shrink(self, c, fails):
         if c.get('k') == 'submits':
+            def drop_op(case, ri, oj):
+                """remove one op; references to a removed job group fall back to the root, later group indices shift down"""
+                case = json.loads(json.dumps(case))
+                flat = [(a, b) for a, r in enumerate(case['rounds']) for b in range(len(r['ops']))]
+                gi = sum(1 for a, b in flat[:flat.index((ri, oj))] if case['rounds'][a]['ops'][b][0] == 'g')
+                removed_group = case['rounds'][ri]['ops'][oj][0] == 'g'
+                del case['rounds'][ri]['ops'][oj]
+                if removed_group:
+                    for r in case['rounds']:
+                        for op in r['ops']:
+                            if len(op) > 2 and op[2] is not None:
+                                if op[2] == gi:
+                                    del op[2:]
+                                elif op[2] > gi:
+                                    op[2] -= 1
+                return case
+
+            def drop_round(case, ri):
+                for oj in range(len(case['rounds'][ri]['ops']) - 1, -1, -1):
+                    case = drop_op(case, ri, oj)
+                case['rounds'] = case['rounds'][:ri] + case['rounds'][ri + 1:]
+                return case
+
             cur = json.loads(json.dumps(c))
             changed = True
             while changed:
                 changed = False
                 for i in range(len(cur['rounds'])):
                     if len(cur['rounds']) > 1:
-                        cand = {**cur, 'rounds': cur['rounds'][:i] + cur['rounds'][i + 1:]}
+                        cand = drop_round(cur, i)
                         if fails(cand):
                             cur, changed = cand, True
                             break
-                    ops = cur['rounds'][i]['ops']
-                    for j in range(len(ops)):
-                        cand = json.loads(json.dumps(cur))
-                        del cand['rounds'][i]['ops'][j]
+                    for j in range(len(cur['rounds'][i]['ops'])):
+                        cand = drop_op(cur, i, j)
                         if fails(cand):
                             cur, changed = cand, True
                             break
@@ -412,6 +498,21 @@ class C19(Prop):
                         op[1] = 0
                         if not fails(cur):
                             op[1] = old
+            return cur
+        if 'gparents' in c:
+            cur = json.loads(json.dumps(c))
+            if fails({**cur, 'jobs': []}):
+                cur['jobs'] = []
+            changed = True
+            while changed and len(cur['groups']) > 1:
+                changed = False
+                for i in range(len(cur['groups']) - 1, -1, -1):
+                    gp = cur['gparents'][:i] + cur['gparents'][i + 1:]
+                    gp = [0 if (p == i + 1) else (p - 1 if p > i + 1 else p) for p in gp]   # children of the removed group go to the root
+                    cand = {**cur, 'groups': cur['groups'][:i] + cur['groups'][i + 1:], 'gparents': gp}
+                    if fails(cand):
+                        cur, changed = cand, True
+                        break
             return cur
         cur = dict(c)
         for fld in ('jobs', 'groups'):
